@@ -9,11 +9,11 @@ def run(repo, res):
     from . import sampleorder
 
     res.rule("R31.3", "sample nodes are identified by ts.samples() / the NODE_IS_SAMPLE bit, never by position in the node table: num_samples is used as a count only (no slice bound, no id range, no ordering comparison with a node id)")
-    sampleorder.run(repo, res, "R31.3")
+    sampleorder.run(repo, res, "R31.3", floor=0, scope=["util.nodes_time_unconstrained", "util.sites_time_from_ts", "util.add_sampledata_times"])
     from . import nullidx
 
     res.rule("R31.2", "above a root the child's age is used: the parent id returned by tree.parent() is tested against tskit.NULL before it indexes the node times (numpy would read the last node's time for -1)")
-    nullidx.run(repo, res, "R31.2")
+    nullidx.run(repo, res, "R31.2", floor=1, scope=["util.sites_time_from_ts", "util.nodes_time_unconstrained"])
     res.rule("R31.1", "the set of accepted node_selection strings equals the set handled by the dispatch chain and every handled branch binds the age from the documented nodes (child; parent; (child+parent)/2; sqrt(child*parent); child above a root); the per-site maximum, the min_time floor and the NaN default are on every path; unconstrained selects nodes_time_unconstrained, which overwrites only non-sample entries with the mn metadata; add_sampledata_times takes an element-wise maximum")
     f = repo.fn("util", "sites_time_from_ts")
     # accepted strings
@@ -93,7 +93,7 @@ def run(repo, res):
     res.require(ok, "R31.1", "util.add_sampledata_times takes the element-wise maximum of estimate and historical-sample bound", "combination differs", repo.loc(ad))
 
 
-VARIANTS = [dict(v, rule="R31.3") for v in __import__("sa.rules.sampleorder", fromlist=["VARIANTS"]).VARIANTS] + [dict(name="root-parent-unguarded", mod="util", expect="fire", rule="R31.2", old="                if node_selection == \"child\" or parent_node == tskit.NULL:", new="                if node_selection == \"child\":")] + [
+VARIANTS = [dict(v, rule="R31.3") for v in __import__("sa.rules.sampleorder", fromlist=["VARIANTS"]).VARIANTS if v["mod"] == "util"] + [dict(name="root-parent-unguarded", mod="util", expect="fire", rule="R31.2", old="                if node_selection == \"child\" or parent_node == tskit.NULL:", new="                if node_selection == \"child\":")] + [
     dict(name="choice-unhandled", mod="util", expect="fire", rule="R31.1", old='    if node_selection not in ["arithmetic", "geometric", "child", "parent"]:', new='    if node_selection not in ["arithmetic", "geometric", "child", "parent", "harmonic"]:'),
     dict(name="branch-deleted", mod="util", expect="fire", rule="R31.1", old='                    elif node_selection == "geometric":\n                        age = np.sqrt(nodes_time[mutation.node] * parent_age)\n', new=""),
     dict(name="arithmetic-not-mean", mod="util", expect="fire", rule="R31.1", old="                        age = (nodes_time[mutation.node] + parent_age) / 2", new="                        age = (nodes_time[mutation.node] + parent_age)"),
